@@ -328,7 +328,7 @@ func mergeInclude(result *ResolvedJournal, includePath string, subResult *Resolv
 func (l *Loader) expandGlob(basePath, pattern string) ([]string, error) {
 	dir := filepath.Dir(basePath)
 
-	pattern = ConvertHledgerGlob(pattern)
+	pattern = ExpandHome(ConvertHledgerGlob(pattern))
 
 	if !filepath.IsAbs(pattern) {
 		pattern = filepath.Join(dir, pattern)
